@@ -145,6 +145,16 @@ def query_traversal(node, callback, is_table=False, is_target=False, parent_quer
                 array.append(node_out)
             node.order_by = array
 
+        if node.limit is not None:
+            node_out = query_traversal(node.limit, callback, parent_query=node)
+            if node_out is not None:
+                node.limit = node_out
+
+        if node.offset is not None:
+            node_out = query_traversal(node.offset, callback, parent_query=node)
+            if node_out is not None:
+                node.offset = node_out
+
     elif isinstance(node, (ast.Union, ast.Intersect, ast.Except)):
         node_out = query_traversal(node.left, callback, parent_query=node)
         if node_out is not None:
